@@ -62,7 +62,7 @@ func isStoreVal(target, val string) func(Site) bool {
 }
 
 func propC04(c *Ctx) {
-	c.Explanation = "Decides structural necessary conditions of window/MSS discipline for all inputs: (N1) the window field written by sendTCP is a lossless conversion: the receive window is clamped to 0xffff before uint16() (interval analysis); (N2) the advertised right edge rcvAcc moves only forward: its only store outside the constructor is guarded by rcvAcc.LessThan(new) and stores exactly that new value, and the advertisement is (rcvAcc-rcvNxt) >> rcvWndScale; (N3) maxPayloadSize only shrinks, is at least 1, and is computed as MTU - TCP header - the largest option block the stack can send (timestamps and maximum SACK blocks) - so a full segment with options never exceeds the MTU; (N4) the peer's window is scaled before the sender sees it: in handleSegments `s.window <<= sndWndScale` precedes both handleRcvdSegment calls on the ACK branch, and the sender copies seg.window into sndWnd; (N5) sendData sends data only when the segment starts before sndUna+sndWnd, and splits exactly at min(room in the window, maxPayloadSize) (site table shared with C01); (N6) acceptable() computes RFC 793's acceptability table over sequence-space primitives; in-window data is delivered (C01/R3); zero-window detection compares (rcvBufSize-rcvBufUsed)>>scale with 0. (N8) the receive window scale in force is 0 exactly when the peer's SYN carried no window-scale option (recorded as -1) and the announced shift otherwise - a peer shift of 0 still enables scaling - and the established receiver takes exactly that value. (N7) zero-window handling: the immediate window update after the application reads is sent exactly when the SCALED window last advertised ((rcvAcc-rcvNxt) >> rcvWndScale, the expression getSendParams returns) was zero; Read notifies the worker exactly when the scaled free space was zero before the bytes left the buffer and is non-zero afterwards; the worker calls nonZeroWindow on that notification bit. NOT decided: the inequality 'bytes in flight <= offered window' over histories of ACKs (needs the sizes of heap-allocated views across calls); the arithmetic of the primitives is C14."
+	c.Explanation = "Decides structural necessary conditions of window/MSS discipline for all inputs: (N1) the window field written by sendTCP is a lossless conversion: the receive window is clamped to 0xffff before uint16() (interval analysis); (N2) the advertised right edge rcvAcc moves only forward: its only store outside the constructor is guarded by rcvAcc.LessThan(new) and stores exactly that new value, and the advertisement is (rcvAcc-rcvNxt) >> rcvWndScale; (N3) maxPayloadSize only shrinks, is at least 1, and is computed as MTU - TCP header - the largest option block the stack can send (timestamps and maximum SACK blocks) - so a full segment with options never exceeds the MTU; (N4) the peer's window is scaled before the sender sees it: in handleSegments `s.window <<= sndWndScale` precedes both handleRcvdSegment calls on the ACK branch, and the sender copies seg.window into sndWnd; (N5) sendData sends data only when the segment starts before sndUna+sndWnd, and splits exactly at min(room in the window, maxPayloadSize) (site table shared with C01); (N6) acceptable() computes RFC 793's acceptability table over sequence-space primitives; in-window data is delivered (C01/R3); zero-window detection compares (rcvBufSize-rcvBufUsed)>>scale with 0. (N8) the receive window scale in force is 0 exactly when the peer's SYN carried no window-scale option (recorded as -1) and the announced shift otherwise - a peer shift of 0 still enables scaling - and the established receiver takes exactly that value. (N7) zero-window handling: the immediate window update after the application reads is sent exactly when the SCALED window last advertised ((rcvAcc-rcvNxt) >> rcvWndScale, the expression getSendParams returns) was zero; Read notifies the worker exactly when the scaled free space was zero before the bytes left the buffer and is non-zero afterwards; the worker calls nonZeroWindow on that notification bit. (N6s) the window primitives acceptable and sendData are written in (InWindow, Overlap, Add, Size, LessThanEq) equal their definitions for all operands (evaluator shared with C14/S1). NOT decided: the inequality 'bytes in flight <= offered window' over histories of ACKs (needs the sizes of heap-allocated views across calls); the arithmetic of the primitives is C14."
 	an := NewAbsint(c.P)
 	n1 := c.Rule("N1", "K8 narrowing", "window field conversion is lossless", 1)
 	if fn := c.Fn(n1, "tcp.sendTCP"); fn != nil {
@@ -175,6 +175,13 @@ func propC04(c *Ctx) {
 		}
 	}
 
+	// N6s: the sequence-space primitives the acceptability table and the send
+	// window test are written in (shared evaluator with C14/S1). LessThan is
+	// the reference the composed ones are decided against; its own absolute
+	// definition is C14's subject.
+	n6s := c.Rule("N6s", "K9/affine32 (shared with C14/S1)", "window primitives used by acceptable/sendData == their definitions for all operands", 4)
+	seqnumPrimitives(c, n6s, map[string]bool{"seqnum.Value.InWindow": true, "seqnum.Overlap": true, "seqnum.Value.Add": true, "seqnum.Value.Size": true, "seqnum.Value.LessThanEq": true})
+
 	n7 := c.Rule("N7", "K9 sibling agreement + K7 exact-guard site tables", "zero window detected on the advertised (scaled) value; reopening announced", 9)
 	if fn := c.Fn(n7, "(*tcp.receiver).getSendParams"); fn != nil {
 		c.CheckSitesPresent(n7, fn, []SiteSpec{{Kind: "return", Args: []string{"$0.rcvNxt", "(seqnum.Value.Size($0.rcvNxt, $0.rcvAcc@u) >> $0.rcvWndScale)"}, Guards: []string{}, Exact: true, N: 1, Why: "what is advertised is (rcvAcc - rcvNxt) >> rcvWndScale"}})
@@ -241,7 +248,7 @@ func propC04(c *Ctx) {
 }
 
 func propC05(c *Ctx) {
-	c.Explanation = "The timing clauses (200 ms, doubling in time, one segment per timeout while the peer is silent, bounds on segments in flight as a function of the ACK history) are about wall-clock behaviour / numeric histories and are NOT decided. Decided (for all inputs): (L1) the constants InitialCwnd = 10, nDupAckThreshold = 3, minRTO = 200ms; (L2) the RTO store discipline: updateRTO's computed value is followed by the clamp to minRTO, a timer expiry stores exactly 2*rto (below the 60 s cap), and the retransmission timer is armed with rto; (L3) the data send loop runs only while outstanding < sndCwnd and counts every data segment sent; (L4) on a retransmission timeout fast recovery is left BEFORE the congestion controller collapses the window, every controller's HandleRTOExpired stores cwnd = 1, outstanding is reset and sending restarts from the head of the write list, in that order; (L5) duplicate-ACK counting: the complete reviewed site table of checkDuplicateAck (a duplicate is an ACK of sndUna with nothing new, same window, no data, while data is outstanding; the third one enters fast recovery after halving ssthresh; partial/complete ACKs during recovery), a true result leads to resendSegment, which retransmits the head of the write list; (L6) the lazily disabled retransmission timer is a three-state machine (disabled/enabled/orphaned) whose state word is written only by its own four methods with exactly the reviewed transitions: a wake-up while orphaned is consumed into disabled, enable always re-arms the runtime timer when the state is disabled (or the pending wake-up would come too late) and ends enabled, disable orphans an armed timer, expiry is reported only at or after the target, and the runtime timer's callback asserts the waker given to init."
+	c.Explanation = "The timing clauses (200 ms, doubling in time, one segment per timeout while the peer is silent, bounds on segments in flight as a function of the ACK history) are about wall-clock behaviour / numeric histories and are NOT decided. Decided (for all inputs): (L1) the constants InitialCwnd = 10, nDupAckThreshold = 3, minRTO = 200ms; (L2) the RTO store discipline: updateRTO's computed value is followed by the clamp to minRTO, a timer expiry stores exactly 2*rto (below the 60 s cap), and the retransmission timer is armed with rto; (L3) the data send loop runs only while outstanding < sndCwnd and counts every data segment sent; (L4) on a retransmission timeout fast recovery is left BEFORE the congestion controller collapses the window, every controller's HandleRTOExpired stores cwnd = 1, outstanding is reset and sending restarts from the head of the write list, in that order; (L5) duplicate-ACK counting: the complete reviewed site table of checkDuplicateAck (a duplicate is an ACK of sndUna with nothing new, same window, no data, while data is outstanding; the third one enters fast recovery after halving ssthresh; partial/complete ACKs during recovery), a true result leads to resendSegment, which retransmits the head of the write list; the NewReno recover point fr.last starts at iss in newSender (RFC 6582 3.2 step 1), is sndNxt-1 on entering/leaving recovery and on a timeout, and is stored nowhere else; (L6) the lazily disabled retransmission timer is a three-state machine (disabled/enabled/orphaned) whose state word is written only by its own four methods with exactly the reviewed transitions: a wake-up while orphaned is consumed into disabled, enable always re-arms the runtime timer when the state is disabled (or the pending wake-up would come too late) and ends enabled, disable orphans an armed timer, expiry is reported only at or after the target, and the runtime timer's callback asserts the waker given to init."
 	l1 := c.Rule("L1", "K12 constants", "RFC 5681 / 6298 constants", 3)
 	for _, k := range []struct{ name, want, what string }{{"InitialCwnd", "10", "initial window of 10 segments"}, {"nDupAckThreshold", "3", "three duplicate ACKs"}, {"minRTO", "200000000", "200 ms RTO floor"}} {
 		v := pkgConst(c.P, "protocol/transport/tcp", k.name)
@@ -359,6 +366,19 @@ func propC05(c *Ctx) {
 		})
 	}
 
+	if fn := c.Fn(l5, "tcp.newSender"); fn != nil {
+		c.CheckSitesPresent(l5, fn, []SiteSpec{
+			{Kind: "store", Target: "tcp.fastRecovery.last", Args: []string{"new(tcp.sender).fr", "$1"}, Guards: []string{}, Exact: true, N: 1, Why: "RFC 6582 3.2 step 1: recover starts at the initial send sequence number, so that duplicates of the very first ACK (ack = iss+1 > recover) can trigger a fast retransmit"},
+			{Kind: "store", Target: "tcp.sender.sndUna", Args: []string{"new(tcp.sender)", "($1 + 1)"}, Guards: []string{}, Exact: true, N: 1, Why: "the first unacknowledged byte follows the SYN"},
+		})
+	}
+	if fn := c.Fn(l5, "(*tcp.sender).leaveFastRecovery"); fn != nil {
+		c.CheckSitesPresent(l5, fn, []SiteSpec{
+			{Kind: "store", Target: "tcp.fastRecovery.last", Args: []string{"$0.fr", "($0.sndNxt - 1)"}, Guards: []string{}, Exact: true, N: 1, Why: "recover = highest sequence number sent"},
+			{Kind: "store", Target: "tcp.fastRecovery.active", Args: []string{"$0.fr", "false"}, Guards: []string{}, Exact: true, N: 1, Why: "recovery is over"},
+		})
+	}
+	c.OnlyIn(l5, "store to fastRecovery.last", c.FieldStores("tcp.fastRecovery", "last"), "tcp.newSender", "(*tcp.sender).enterFastRecovery", "(*tcp.sender).leaveFastRecovery", "(*tcp.sender).retransmitTimerExpired")
 	c.OnlyIn(l5, "store to fastRecovery.first", c.FieldStores("tcp.fastRecovery", "first"), "(*tcp.sender).checkDuplicateAck", "(*tcp.sender).enterFastRecovery", "(*tcp.sender).leaveFastRecovery")
 
 	l6 := c.Rule("L6", "typestate: K3 confinement + K7 exact-guard site tables", "lazy retransmission timer state machine", 14)
